@@ -78,7 +78,7 @@ type AwsSim struct {
 	nAttach, nTerm, nTermInAsg, nPolls map[string]int
 	fleetOwner                         map[string]string // instance id -> ASG name (from fleet replies)
 	refreshFail                        bool
-	refreshFailN                       int // scan engine: this many upcoming provider refreshes fail (then the provider is rebuilt)
+	refreshPlan                        []bool // scan engine: outcomes of the upcoming provider refresh / rebuild describes (missing = ok)
 	describeAsRefresh                  int // number of upcoming DescribeAutoScalingGroups calls that are provider refreshes
 	journalSink                        *Journal
 	curIdx                             int           // scan engine: 1-based index of the node group being scanned
@@ -173,9 +173,12 @@ func (m simAutoscaling) DescribeAutoScalingGroups(in *autoscaling.DescribeAutoSc
 		if s.refreshFail {
 			return nil, errInjected
 		}
-		if s.refreshFailN > 0 {
-			s.refreshFailN--
-			return nil, errInjected
+		if len(s.refreshPlan) > 0 {
+			ok := s.refreshPlan[0]
+			s.refreshPlan = s.refreshPlan[1:]
+			if !ok {
+				return nil, errInjected
+			}
 		}
 		out := &autoscaling.DescribeAutoScalingGroupsOutput{}
 		for _, n := range in.AutoScalingGroupNames {
